@@ -70,7 +70,7 @@ def make_case(rec):
         base = {"u": 10, "o": 8, "x": 16, "X": 16}[conv]
         d["digs"] = codes(to_base(conv_v, base, conv == "X"))
     elif conv == "s":
-        s = STRS[v % 5]; args.append(["str", s]); d["str"] = codes(s)
+        s = STRS[v % 5]; args.append(["wstr" if ln == "l" else "str", s]); d["str"] = codes(s)     # %ls: the same text as wchar_t
     elif conv == "c":
         c = CHARS[v % 5]; args.append(["int", str(ord(c))]); d["str"] = codes(c)
     elif conv == "p":
@@ -154,6 +154,10 @@ def run(ctx):
                         if fl["hash"] and conv not in ("o", "x", "X"):
                             continue      # ISO C leaves # undefined for d, i, u
                         cases.append(make_case({"flags": fl, "conv": conv, "len": ln, "val": v, "width": w, "prec": pr}))
+        # %ls (wide strings): width, precision and justification as for %s
+        for v in range(5):
+            for fl, w, pr in ((nofl, "", ""), (nofl, "7", ""), (dict(nofl, minus=True), "7", ""), (nofl, "", ".3"), (dict(nofl, minus=True), "9", ".2"), (nofl, "*", ".*")):
+                cases.append(make_case({"flags": fl, "conv": "s", "len": "l", "val": v, "width": w, "prec": pr}))
     for c in cases:
         if len(c["fmt"]) > 4:
             ctx.count_history([c["fmt"], c["args"]])
